@@ -779,7 +779,7 @@ def run(tier):
         "sites_in_derive_generated_code": len(g_sites), "hash_container_iterations": ["%s: %s" % h for h in hash_iter][:10],
         "site_verdicts": [{"fn": f, "sites": k, "verdict": v} for f, k, v in verdicts],
         "panic_feasibility_queries": {"unsat": n_unsat, "sat": n_sat},
-        "native_sampling_note": "the native part is sampling (fresh expander processes, different hash seeds): no panic, output parses as items, compile_error! carries a message, byte-identical output across processes",
+        "native_sampling_note": "the native part is sampling (fresh expander processes, different hash seeds, the corpus in the same / reverse / shuffled order): no panic, output parses as items, compile_error! carries a message, byte-identical output of every input across processes and orders",
     })
     return e3.finish(
         PID, tier, t0, eng, obl, out, extra=extra_ev,
